@@ -41,6 +41,7 @@ type TaskLane struct {
 
 	// Status
 	blockingTaskCnt *atomic.Uint32
+	lastPanicMu     sync.Mutex // guards lastPanic: written by every worker, read by Status
 	lastPanic       any
 }
 
@@ -97,7 +98,9 @@ func (tl *TaskLane) startWorker(index int) {
 		func() {
 			defer func() {
 				if err := recover(); err != nil {
+					tl.lastPanicMu.Lock()
 					tl.lastPanic = err
+					tl.lastPanicMu.Unlock()
 				}
 			}()
 			task.Start()
@@ -166,11 +169,14 @@ func (tl *TaskLane) Status() *LaneStatus {
 		pending += len(tl.bufferedQueueList[i])
 	}
 	pending += int(tl.blockingTaskCnt.Load())
+	tl.lastPanicMu.Lock()
+	lastPanic := tl.lastPanic
+	tl.lastPanicMu.Unlock()
 	return &LaneStatus{
 		LaneSize:    tl.laneSize,
 		QueueSize:   tl.queueSize,
 		PendingTask: pending,
-		LastPanic:   tl.lastPanic,
+		LastPanic:   lastPanic,
 	}
 }
 
